@@ -1,6 +1,6 @@
 (* C01: the value of the log-likelihood ratio (real-number reading). *)
 From Coq Require Import Reals ZArith List Bool Lra Lia Permutation.
-From Sky Require Import Num NumR G_llh M_Llh S_Llh P_Llh.
+From Sky Require Import Num NumR G_llh M_Llh S_Llh P_LlhK.
 Import ListNotations.
 Open Scope R_scope.
 
@@ -39,10 +39,18 @@ Section V.
     ev_loglam Nm opa ns x = Lam (opa - 1) (ns * x).
   Proof.
     unfold ev_loglam, ev_stable, ev_tilde, ev_alpha_i, Lam, Taylor.
-    rewrite K_m_stable, K_alpha, K_alpha_i, K_loglam_stable, K_loglam_unstable, K_tildealpha.
-    unfold Rltb.
+    rewrite KV_alpha, KV_alpha_i, KV_loglam_stable, KV_loglam_unstable, KV_tildealpha.
+    destruct (KV_m_stable erfR (ns * x) (opa - 1)) as [Hgt Hlt].
     replace (1 + (opa - 1)) with opa by lra.
-    destruct (Rlt_dec (opa - 1) (ns * x)); [reflexivity|]. lra.
+    destruct (Rlt_dec (opa - 1) (ns * x)) as [H|H].
+    - rewrite (Hgt H). reflexivity.
+    - destruct (Rlt_dec (ns * x) (opa - 1)) as [H2|H2].
+      + rewrite (Hlt H2). lra.
+      + (* exactly at the threshold both branches give log(1+alpha) *)
+        assert (E : ns * x = opa - 1) by lra. rewrite E.
+        replace (opa - 1 - (opa - 1)) with 0 by lra.
+        replace (1 + (opa - 1)) with opa by lra.
+        destruct (k_m_stable Nm (opa - 1) (opa - 1)); unfold Rdiv; lra.
   Qed.
 
   (* C01.1: the model value is the manual's formula *)
@@ -50,9 +58,9 @@ Section V.
     evaluate_value Nm opa N ns Rs = logLambda_manual (opa - 1) N ns Rs.
   Proof.
     unfold evaluate_value, log_lambda, logLambda_manual, Xs.
-    rewrite K_log_lambda, nsum_R, nlen_R, !map_length, !map_map.
+    rewrite KV_log_lambda, nsum_R, nlen_R, !map_length, !map_map.
     f_equal.
-    - f_equal. apply map_ext. intros r. rewrite ev_loglam_Lam, K_Xi. reflexivity.
+    - f_equal. apply map_ext. intros r. rewrite ev_loglam_Lam, KV_Xi. reflexivity.
     - f_equal. f_equal. unfold Rdiv. lra.
   Qed.
 
@@ -111,10 +119,10 @@ Section V.
   Theorem sob_ratio_spec z s b :
     sob_ratio Nm z s b = if Rlt_dec 0 b then s / b else z.
   Proof.
-    unfold sob_ratio. rewrite K_sob_mask, K_sob_ratio. unfold Rltb.
+    unfold sob_ratio. rewrite KV_sob_mask, KV_sob_ratio. unfold Rltb.
     destruct (Rlt_dec 0 b); reflexivity.
   Qed.
 
   Theorem prod_ratio_spec r1 r2 : prod_ratio Nm r1 r2 = r1 * r2.
-  Proof. reflexivity. Qed.
+  Proof. unfold prod_ratio. apply KV_prod_ratio. Qed.
 End V.
